@@ -232,7 +232,26 @@ static void regular_families(unsigned long long& unit)
 			double m1 = std::cosh(w * iv.first), m2 = std::cosh(w * iv.second), mn = (iv.first * iv.second < 0) ? 1.0 : std::min(m1, m2);
 			cs.push_back({"cosh_w" + mc::dec(w), [w](ld x) { return coshl(w * x); }, [w](ld a, ld b) { return (sinhl(w * b) - sinhl(w * a)) / w; }, iv.first, iv.second, std::max(m1, m2) / mn});
 		}
-	for(double s : {1.0, 0.01, 100.0})
+	// the same members on similar copies of the intervals: x -> x*lam, w -> w/lam (the statement names no width; nothing in it
+	// depends on the absolute size of the interval)
+	for(double lam : {1e-6, 3e-6, 7e-9, 1e5})
+		for(double w0 : {1.2, -1.0, 0.1})
+			for(auto iv0 : std::vector<std::pair<double, double>>{{0, 1}, {-1, 0.2}, {10, 10.25}})
+			{
+				double w = w0 / lam;
+				std::pair<double, double> iv{iv0.first * lam, iv0.second * lam};
+				double ratio = std::exp(std::fabs(w) * (iv.second - iv.first));
+				cs.push_back({"exp_w" + mc::dec(w), [w](ld x) { return expl(w * x); }, [w](ld a, ld b) { return (expl(w * b) - expl(w * a)) / w; }, iv.first, iv.second, ratio});
+				double m1 = std::cosh(w * iv.first), m2 = std::cosh(w * iv.second), mn = (iv.first * iv.second < 0) ? 1.0 : std::min(m1, m2);
+				cs.push_back({"cosh_w" + mc::dec(w), [w](ld x) { return coshl(w * x); }, [w](ld a, ld b) { return (sinhl(w * b) - sinhl(w * a)) / w; }, iv.first, iv.second, std::max(m1, m2) / mn});
+			}
+	for(double p : {0.5, 2.5, -1.5, 10.0})
+		for(auto iv : std::vector<std::pair<double, double>>{{1e-6, 1.3e-6}, {4e-6, 5e-6}, {2e-9, 2.2e-9}, {1e8, 1.1e8}})
+		{
+			double ratio = std::pow(iv.second / iv.first, std::fabs(p - 4));
+			cs.push_back({"pow_p" + mc::dec(p), [p](ld x) { return powl(x, p); }, [p](ld a, ld b) { return (powl(b, p + 1) - powl(a, p + 1)) / (p + 1); }, iv.first, iv.second, ratio});
+		}
+	for(double s : {1.0, 0.01, 100.0, 4e-6, 1e-9, 1e7})
 		for(int k : {1, 2, 5})
 			for(double wd : {0.05, 0.2, 1.0})
 			{
